@@ -201,6 +201,9 @@ func c10Direct(c c10Case, r *hx.Rec) error {
 			return fmt.Errorf("VerifyArtifacts panicked: %v", pan)
 		}
 		ok := err == nil
+		if ok && len(d.ProdRules) == 1 && len(d.ProdRules[0]) == 2 && d.ProdRules[0][0] == "DISALLOW" && d.ProdRules[0][1] == "*" && len(d.Links["item"].Products) > 0 {
+			return fmt.Errorf("VerifyArtifacts accepted although the only product rule is DISALLOW * and the link records products %v", sortedArtKeys(d.Links["item"].Products))
+		}
 		if first == nil {
 			first = &ok
 		} else if *first != ok {
@@ -338,12 +341,15 @@ func c10Gen(t *rapid.T) c10Case {
 		}
 	case "direct":
 		h := func(d string) map[string]string { return map[string]string{"sha256": d} }
-		names := []string{"./a", "sub//b", "x/../c", "d/", "e", "sub/./f", "a", "c"}
+		names := []string{"./a", "sub//b", "x/../c", "d/", "e", "sub/./f", "a", "c", "y/../a", "./c"}
 		pick := rapid.SliceOfNDistinct(rapid.SampledFrom(names), 1, 5, rapid.ID[string]).Draw(t, "names")
 		item := hx.RLink{Materials: map[string]map[string]string{}, Products: map[string]map[string]string{}}
 		dst := hx.RLink{Materials: map[string]map[string]string{}, Products: map[string]map[string]string{}}
 		for _, n := range pick {
 			item.Products[n] = h("aa")
+			if n == "y/../a" {
+				item.Products[n] = h("cc")
+			}
 			if n == "a" || n == "c" {
 				// the same artifact under two spellings, with different digests: whichever spelling the
 				// verifier prefers, it has to prefer it every time
@@ -358,6 +364,11 @@ func c10Gen(t *rapid.T) c10Case {
 			MatRules:  [][]string{{"MATCH", "*", "WITH", "PRODUCTS", "FROM", "dst"}, {"ALLOW", "*"}},
 			ProdRules: [][]string{{"MATCH", "*", "WITH", "PRODUCTS", "FROM", "dst"}, {"DISALLOW", "sub/*"}, {rapid.SampledFrom([]string{"ALLOW", "DISALLOW"}).Draw(t, "closing"), "*"}},
 			Links:     map[string]hx.RLink{"item": item, "dst": dst}}
+		if rapid.IntRange(0, 3).Draw(t, "onlydisallow") == 0 {
+			// nothing consumes anything: whatever the spellings, a recorded product is still there for DISALLOW *
+			c.Direct.MatRules = [][]string{{"ALLOW", "*"}}
+			c.Direct.ProdRules = [][]string{{"DISALLOW", "*"}}
+		}
 		c.Calls = []c10Call{{}}
 		c.Repeats = hx.Pick(12, 32)
 	}
